@@ -664,6 +664,25 @@ def _run_pbpmask(desc):
             ref.setmap(types.SimpleNamespace(i=ij[:, 0], j=ij[:, 1]))
             ref.icolf = types.SimpleNamespace(dty=dty, omega=omega)
             ref.setmask(use_icolf=True)
+        # the refinement grid is used as a reconstruction-space image: pixel (ri, rj) carries the sample position geometry.recon_to_sample
+        # gives it - also when the map of indexed points has holes (a sample in two pieces, a map made on every second step)
+        bad_grid = False
+        for mname, keep_pts in (("dense", np.ones(len(ij), bool)), ("rows -1..2 empty", (ij[:, 0] < -1) | (ij[:, 0] > 2)),
+                                ("every second step", (ij[:, 0] % 2 == 0) & (ij[:, 1] % 2 == 0)), ("columns 3..5 empty", (ij[:, 1] < 3) | (ij[:, 1] > 5))):
+            with contextlib.redirect_stdout(io.StringIO()):
+                r2 = PBPRefine(dset, "phase", y0=y0)
+                r2.setmap(types.SimpleNamespace(i=ij[keep_pts, 0], j=ij[keep_pts, 1]))
+            shp2 = r2.sx_grid.shape
+            RI, RJ = np.indices(shp2)
+            wx, wy = G.recon_to_sample(RI, RJ, shp2, ystep)
+            if not (np.allclose(r2.sx_grid, wx, rtol=0, atol=1e-9 * (1 + np.abs(wx).max())) and np.allclose(r2.sy_grid, wy, rtol=0, atol=1e-9 * (1 + np.abs(wy).max()))):
+                sh.violation("PBPRefine.setmap:grid-pixel-does-not-carry-the-sample-position-of-recon_to_sample", dict(case, map_points=mname),
+                             {"grid_shape": list(shp2), "max_diff_steps": float(max(np.abs(r2.sx_grid - wx).max(), np.abs(r2.sy_grid - wy).max()) / ystep)})
+                bad_grid = True
+                break
+            sh.evaluations += 1
+        if bad_grid:
+            continue
         mask = np.asarray(ref.mask)
         if mask.shape != ref.sx_grid.shape or not mask.any():
             sh.violation("PBPRefine.setmask:mask-empty-or-not-the-shape-of-the-grid", case, {"shape": list(mask.shape), "grid": list(ref.sx_grid.shape)})
